@@ -173,6 +173,21 @@ Section JoltLoop.
       end
     end.
 
+  (** the simplices handed to the solver, iteration by iteration (rows of Y after the new support
+      point was appended), for a recorded trace: used to decide whether a wrong answer of the
+      distance query is due to the simplex solver's known ill-conditioned input classes *)
+  Fixpoint replay_simplices (tolerance_sq max_distance_squared : F)
+           (trace : list (V3 F * V3 F)) (s : dstate) : list (list (V3 F)) :=
+    match trace with
+    | [] => []
+    | (p, q) :: rest =>
+      let Y1 := Ys s ++ [vsub p q] in
+      match distance_step tolerance_sq max_distance_squared p q s with
+      | SDone Unknown s' => Y1 :: replay_simplices tolerance_sq max_distance_squared rest s'
+      | _ => [Y1]
+      end
+    end.
+
   (** ** the boolean test: lines 83-135, one call of [_intersection_loop] *)
   Record istate := IS { iY : list (V3 F); iprev : F; idir : V3 F }.
   (** (Before /repo commit 3066ace the no-improvement arm executed [search_direction[:] = None]:
